@@ -21,7 +21,6 @@ RULE = (
     "one persim call; non-trivial = some endpoint is not a grid node (snapping happens) and >= 2 depths."
 )
 ASSUMPTIONS = [
-    "the 'empty' sentinel array of PersLandscapeApprox is read as 'no depth returned'",
     "vectorize is compared with the definition only where the exact landscape itself agrees with it (C03 known finding)",
 ]
 GRIDS = [(0.0, 3.0), (-1.0, 4.0), (0.0, 3.5), None, (-0.5, None), (None, 3.25)]
@@ -70,7 +69,7 @@ def quiet(ctx, fn, *a, **kw):
 def values_of(pl):
     v = np.asarray(pl.values)
     if v.dtype.kind not in "fiu":
-        return np.zeros((0, pl.num_steps))
+        return None     # not an array of sampled values (the former "empty" string sentinel)
     return v.astype(float)
 
 
@@ -80,6 +79,10 @@ def check_grid(ctx, D, pl, start, stop, num, what, sig="approx"):
     V = values_of(pl)
     ctx.valid()
     ex = {"D": D, "start": start, "stop": stop, "num_steps": num, "variant": what}
+    if V is None:
+        ctx.violation(sig + "-values-not-numeric", "values is not a numeric array of sampled landscape values [%s]" % what,
+                      observed=repr(pl.values), extra=ex)
+        return
     if V.ndim != 2 or V.shape[1] != num:
         ctx.violation(sig + "-shape", "values must have one column per grid node [%s]" % what, observed=list(V.shape), extra=ex)
         return
